@@ -49,8 +49,41 @@ func (ex *Executable) Validate(root *Root) (errs []error) {
 	}
 	for _, f := range ex.Fragments {
 		errs = append(errs, f.Validate(root)...)
+		// Fragment spreads must not form cycles. Resolving a cycle is cut off
+		// by the depth limit but only after up to 2^depth expansions.
+		if spreadsFragment(f, f.Sels, map[*Fragment]bool{}) {
+			errs = append(errs, valError(f.line, f.col, "fragment %s is part of a fragment spread cycle", f.Name))
+		}
 	}
 	return
+}
+
+// spreadsFragment returns true if the target fragment is spread, directly or
+// through other fragments, somewhere in the selections.
+func spreadsFragment(target *Fragment, sels []Selection, seen map[*Fragment]bool) bool {
+	for _, sel := range sels {
+		switch ts := sel.(type) {
+		case *Field:
+			if spreadsFragment(target, ts.Sels, seen) {
+				return true
+			}
+		case *Inline:
+			if spreadsFragment(target, ts.Sels, seen) {
+				return true
+			}
+		case *FragRef:
+			if ts.Fragment == target {
+				return true
+			}
+			if ts.Fragment != nil && !seen[ts.Fragment] {
+				seen[ts.Fragment] = true
+				if spreadsFragment(target, ts.Fragment.Sels, seen) {
+					return true
+				}
+			}
+		}
+	}
+	return false
 }
 
 // SetContextRecursive sets the context for each field in the request tree
